@@ -293,7 +293,7 @@ def run_case(ctx, rng, idx):
     recipe = recipe_from([rng.choice(alphabet) for _ in range(n)])
     if idx < 2:
         ctx.sample({"recipe": repr(recipe), "requests": [repr(t) for t, _ in REQUESTS]})
-    variant = rng.choice(["plain", "extend", "extend", "replace", "subclass", "inner-retort"])
+    variant = rng.choice(["plain", "extend", "extend", "replace", "subclass", "inner-retort", "inner-retort-clone"])
     ctx.count(f"variant_{variant}")
     if variant == "plain":
         run_recipe(ctx, recipe)
@@ -314,6 +314,17 @@ def run_case(ctx, rng, idx):
                 recipe = provs[k // 2:k]
             return Sub(recipe=provs[:k // 2], debug_trail=DebugTrail.DISABLE)
         run_recipe(ctx, recipe, mk, "subclass")
+    elif variant == "inner-retort-clone":
+        # a retort that has ALREADY served as a provider is extended / replaced, and the clone is placed in another recipe:
+        # the host is served from the clone's recipe and options, not from the original's (seeded change: memoised request handlers)
+        k = rng.randint(0, n)
+
+        def mk_clone(provs, k=k):
+            original = Retort(recipe=provs[k:], debug_trail=DebugTrail.ALL, strict_coercion=False)
+            Retort(recipe=[original])          # the original is placed in a recipe once (no request: the marker logs stay clean)
+            clone = original.extend(recipe=provs[:k]).replace(debug_trail=DebugTrail.DISABLE, strict_coercion=True)
+            return Retort(recipe=[clone], debug_trail=DebugTrail.ALL, strict_coercion=False)
+        run_recipe(ctx, recipe, mk_clone, "inner-retort-clone")
     else:
         # a retort placed in a recipe serves matched requests from its own recipe and options: everything is served by `inner`
         run_recipe(ctx, recipe, lambda provs: Retort(recipe=[Retort(recipe=provs, debug_trail=DebugTrail.DISABLE)], debug_trail=DebugTrail.ALL, strict_coercion=False), "inner-retort")
